@@ -101,6 +101,11 @@ const (
 	KBatchGet   = "BatchGetItem"
 	KTransact   = "TransactWriteItems"
 	KFail       = "Fail"
+	// test helpers exercised by the concurrency check only
+	KActivateNative = "ActivateNativeInterpreter"
+	KSetInterpreter = "SetInterpreter"
+	KSetICM         = "SetItemCollectionMetrics"
+	KActivateDebug  = "ActivateDebug"
 )
 
 func strOr(raw *string, s fmt.Stringer, isNil bool) *string {
